@@ -295,7 +295,10 @@ class Mat:
 
 
 def classify_exc(e):
+    import traceback
     s = str(e)
+    if any(fr.name == "__str__" for fr in traceback.extract_tb(e.__traceback__)):
+        return "strFails"
     if isinstance(e, ValueError) and "Validation failed" in s:
         return "invalid"
     if isinstance(e, KeyError):
@@ -310,6 +313,10 @@ def classify_exc(e):
         if "does not match any" in s:
             return "badHint"
     return "other:%s:%s" % (type(e).__name__, s[:60])
+
+
+def classify_exc_plain(e):
+    return "%s: %s" % (type(e).__name__, str(e)[:80])
 
 
 def classify_warn(ws):
@@ -347,6 +354,12 @@ def run_real(script):
     saved = get_switch()
     for call in script["calls"]:
         child = pool[call["c"]]
+        try:
+            with quiet():
+                str(child)
+            sok = True
+        except Exception:  # noqa
+            sok = False
         before = snapshot(parent, ids)
         members = [(m.get_name(), m.get_data_type(), m.get_container()) for m in type(parent)._get_members()]
         slot_before = dict((n, vars(parent)[n]) for n, _d, _c in members if n in vars(parent))
@@ -373,11 +386,11 @@ def run_real(script):
                "ch": ch}
         recs.append({"rec": rec, "gone": gone, "pv": pv, "ret_is_child": ret is child, "exc": exc,
                      "members": members, "slot_before": slot_before, "list_before": list_before,
-                     "switch_ok": switch_after == call["en"], "child": child, "parent": parent,
+                     "switch_ok": switch_after == call["en"], "sok": sok, "child": child, "parent": parent,
                      "after": dict((n, (list(vars(parent).get(n)) if isinstance(vars(parent).get(n), list)
                                         else vars(parent).get(n))) for n, _d, _c in members)})
         line["calls"].append({"c": call["c"], "hint": call["hint"], "force": call["force"], "en": call["en"],
-                              "val": call["val"], "pv": bool(pv)})
+                              "val": call["val"], "pv": bool(pv), "sok": sok})
     return line, recs
 
 
@@ -437,6 +450,13 @@ def oracle(ctx, script, i, call, R):
     others = [k for k in changed if k != name]
     if others:
         fail("C10:other-member-changed", "attributes other than %s changed: %s" % (name, others))
+    if rec["r"] == "err:strFails":
+        if taken and not force and container != 0 and not R["sok"] and not changed:
+            fail("C10:dup-warning-raises:str", "duplicate refused, but formatting the warning raised (str(child) fails): %s"
+                 % classify_exc_plain(R["exc"]))
+        else:
+            fail("C10:unexpected-raise", "str(child) raised outside the duplicate warning")
+        return "refused-str-raises"
     if raised and rec["r"] != "err:invalid":
         fail("C10:unexpected-raise", "a unique member (%s) exists but add() raised %s" % (name, rec["r"]))
         return "sel-raise"
@@ -668,6 +688,10 @@ CORPUS = [
      "pool": [{"xml": ["izhikevich_cells", 0], "copy": 0}, {"xml": ["izhikevich_cells", 0], "copy": 1},
               {"xml": ["izhikevich_cells", 1], "copy": 0}],
      "calls": [_call(0), _call(0), _call(1), _call(2)]},
+    # KNOWN FINDING: the duplicate warning formats the child; Input.__str__ fails on an incomplete Input
+    {"parent": {"cls": "InputList", "attrs": {"id": "il"}},
+     "pool": [{"cls": "Input", "attrs": {}}, {"cls": "Input", "attrs": {}}, {"cls": "InputW", "attrs": {}}],
+     "calls": [_call(0), _call(1), _call(1, force=True), _call(2), _call(2)]},
     # malformed parents: container set to None / attribute deleted / falsy single value
     {"parent": {"cls": "Network", "attrs": {"id": "n"}, "corrupt": [["set", "populations", None], ["del", "projections"]]},
      "pool": [{"cls": "Population", "attrs": {"id": "p"}}, {"cls": "Projection", "attrs": {"id": "q"}}],
